@@ -905,7 +905,7 @@ def simplify_constrained_range(source: str) -> str:
         ast.ListComp(generators=[comprehension_template]),
         ast.SetComp(generators=[comprehension_template]),
     )
-    for node in core.walk(root, template):
+    for transaction, node in enumerate(core.walk(root, template)):
         comp = node.generators[0]
         if not comp.ifs:
             continue
@@ -1042,8 +1042,9 @@ def simplify_constrained_range(source: str) -> str:
         if not redundant_conditions:
             continue
 
+        # The filters may only go together with the new range: one transaction
         for condition in redundant_conditions:
-            yield condition, ast.Constant(value=True, kind=None)
+            yield condition, ast.Constant(value=True, kind=None), transaction
 
         # Unknown bounds keep their original expression
         new_args = [
@@ -1056,4 +1057,5 @@ def simplify_constrained_range(source: str) -> str:
             if start == 0:
                 new_args.pop(0)
 
-        yield comp.iter, ast.Call(func=ast.Name(id="range"), args=new_args, keywords=[])
+        new_range = ast.Call(func=ast.Name(id="range"), args=new_args, keywords=[])
+        yield comp.iter, new_range, transaction
